@@ -50,6 +50,7 @@ type Engine struct {
 	modulePath  string
 	loopCache   map[*ssa.Function]*loopInfo
 	hookArgs  []Val
+	hookRes   *Val
 	gconsts   map[*ssa.Global]*ssa.Const
 	guards    map[string]*guardInfo // "pkgpath.Type.field" -> guard
 	typedOnce map[string]bool
@@ -482,6 +483,13 @@ func (e *Engine) doReturn(st *State, res []Val, pos token.Pos) {
 			v = Val{K: KTuple, F: res, Ty: fr.retTo.Type()}
 		}
 		caller.regs[fr.retTo] = v
+		// "after" hooks of the function under contract also fire when the callee was inlined
+		if ci, ok := fr.retTo.(ssa.Instruction); ok && len(st.frames) == 1 && !st.dead {
+			e.hookArgs = fr.params
+			e.hookRes = &v
+			e.runHooks(st, caller, ci, keyOf(fr.fn), "after")
+			e.hookRes = nil
+		}
 	}
 }
 
@@ -706,7 +714,7 @@ func (e *Engine) execInstr(st *State, instr ssa.Instruction) {
 		for _, a := range in.Call.Args {
 			args = append(args, st.operand(a))
 		}
-		e.doGo(st, &in.Call, fnv, args, in.Pos())
+		e.doGo(st, &in.Call, fnv, args, in.Pos(), in)
 	case *ssa.ChangeType:
 		v := st.operand(in.X)
 		v.Ty = in.Type()
